@@ -76,7 +76,7 @@ func inFragment(n ast.Node) bool {
 	switch v := n.(type) {
 	case *ast.Identifier:
 		return v.Type() == token.IDENT
-	case *ast.IntegerLiteral:
+	case *ast.IntegerLiteral, *ast.FloatLiteral, *ast.StringLiteral, *ast.Boolean, *ast.ControlExpression:
 		return true
 	case *ast.PrefixExpression:
 		return v.Right != nil && inFragment(v.Right)
@@ -143,10 +143,18 @@ var fragPre = []string{"!", "-", "+", "~", "^", "++", "--"}
 func fragExpr(r *Rng, d int) string {
 	k := r.Intn(10)
 	if d <= 0 || k < 2 {
-		if r.Pct(65) {
+		switch k := r.Intn(20); {
+		case k < 11:
 			return genFragIdents[r.Intn(len(genFragIdents))]
+		case k < 15:
+			return genFragInts[r.Intn(len(genFragInts))]
+		case k < 17:
+			return genFragFloats[r.Intn(len(genFragFloats))]
+		case k < 19:
+			return genFragStrings[r.Intn(len(genFragStrings))]
+		default:
+			return []string{"true", "false"}[r.Intn(2)]
 		}
-		return genFragInts[r.Intn(len(genFragInts))]
 	}
 	par := func(s string, pct int) string {
 		if r.Pct(pct) {
@@ -162,6 +170,8 @@ func fragExpr(r *Rng, d int) string {
 }
 
 var genFragIdents = []string{"a", "b", "c", "x", "foo", "_z1", "n"}
+var genFragFloats = []string{"1.5", ".5", "2.", "1e3", "1.5e-3", "0.25"}
+var genFragStrings = []string{`"s"`, `""`, `"a b"`, `"a\"b"`, "`raw`", `"\n\t"`, `"it's"`}
 var genFragInts = []string{"0", "1", "42", "007", "0x1F", "0b101", "1_000", "9223372036854775807"}
 
 // operator-pair matrix: every parent/child pair, child on either side, explicit source parentheses
@@ -227,7 +237,7 @@ func matrix(c *Ctx, s *st, depth3 bool) {
 func run(c *Ctx) {
 	c.Rule = "operator-pair matrix (every parent form x every child form, child parenthesised in the source, both print modes; depth 3 in thorough); " +
 		"grammar-generated programs (nesting <= 4, statements, blocks, functions, lambdas, comments; a stream avoiding recorded findings and a stream exercising them); " +
-		"fragment stream for the proved theorem (identifiers, integers, prefix and infix operators with random redundant parentheses, depth <= 5: the formatter's output must lex to the Coq token sequence body(e) in both modes, and must round-trip); literal forms and strings over the byte universe; byte mutations of the shipped examples. non-trivial = distinct clean trees"
+		"fragment stream for the proved theorem (identifiers, integer / float / string literals, true / false, prefix and infix operators with random redundant parentheses, depth <= 5: the formatter's output must lex to the Coq token sequence body(e) in both modes, and must round-trip); literal forms and strings over the byte universe; byte mutations of the shipped examples. non-trivial = distinct clean trees"
 	if c.ReplayCase != "" {
 		f := strings.Fields(c.ReplayCase)
 		var s st
@@ -259,7 +269,7 @@ func run(c *Ctx) {
 	}
 	// the fragment of the proved theorem: formatter output lexes to body(e) (both modes), and round-trips
 	for _, src := range []string{"a", "1", "-a", "-(-a)", "a+b", "a-(b-c)", "(a-b)-c", "a*(b+c)", "-(a+b)*c - d", "!(a&&b)||c", "a=b=c", "a=(b=c)",
-		"a+(b+c)", "(a+b)+c", "a:b", "++a", "a - -b", "a + ++b", "~(a|b)^c", "a<(b<c)", "0x1F+007", "a+(b*c)+d", "((a))", "-(1)", "a := b := 1", "a:=(b:=1)"} {
+		"a+(b+c)", "(a+b)+c", "a:b", "++a", "a - -b", "a + ++b", "~(a|b)^c", "a<(b<c)", "0x1F+007", "a+(b*c)+d", "((a))", "-(1)", "a := b := 1", "a:=(b:=1)", `"s"+"t"`, "1.5*(a+2.)", "true&&!false", "-(1.5)", `a==("x"+b)`, "break", "!continue"} {
 		fragCase(c, []byte(src))
 	}
 	nf := 2500
